@@ -40,7 +40,16 @@ RULE = (
     "interiors are pairwise disjoint (separating axis), no child is outside every parent, every parent vertex is "
     "within tol of a child vertex and of `.vertices`. After neighborhood: set of returned triangles == originals U "
     "mirror images across each edge (explicit line reflection), compared as sets of vertex sets at tol. "
-    "for_indexes: same triangles as those selected (as a set, equal count). containing_indices(shape): every "
+    "for_indexes(index): position by position the triangles `reference_triangles[index]` under numpy indexing "
+    "semantics, the index given as int64 / int32 / uint8 array, negative or mixed-sign array, Python list "
+    "(also negative), boolean mask array or list of the set's length, with repeated entries, or empty (every "
+    "form the unchanged code accepts in both representations), and the two representations agree afterwards. "
+    "Empty and single-element sets are explicit classes (a quarter of the histories each): the set is emptied "
+    "by an empty index in any form or by the chain containing_indices(shape 200-2000 sides outside the mesh) -> "
+    "for_indexes(result), or cut down to one triangle, and the history carries on through up_sample / "
+    "neighborhood / for_indexes / containing_indices / area / len; the up-sampling and the neighbourhood of the "
+    "empty set must be the empty set (count 4*0, no extra triangle), its area 0, containing_indices on it "
+    "reports nothing. containing_indices(shape): every "
     "triangle that contains the shape's reference point with barycentric margin >= 0.01 is reported (point placed "
     "with weights >= 0.05 in a chosen triangle: generic, near an edge, near a vertex, at the centroid; or with "
     "weights >= 0.015: next to a corner (one vertex weight 0.85-0.97) or next to an edge midpoint), and a "
@@ -63,7 +72,13 @@ ASSUMPTIONS = [
     "'lies inside' is read as the closed triangle only for a reference point that is bitwise equal to one of the "
     "triangle's own vertices (exact in floating point for the barycentric formula; the repository's own tests "
     "assert it); all other reference points are strictly inside with margin >= 0.05",
-    "selection by index is compared as a set of triangles with equal count, not position by position",
+    "selection by index is compared position by position against numpy indexing of the previous `.triangles` "
+    "(each position as a set of three vertices); index forms rejected by the unchanged code in both "
+    "representations (float-dtype arrays, including the float-dtype `np.array([])`) are outside the domain; a "
+    "tuple and a bare scalar are not index arrays either (the coordinate form raises IndexError for them, the "
+    "vertex-array form returns a malformed object) and are not generated; nothing is asserted about "
+    "out-of-range indexes; slices are accepted by both but are not generated",
+    "on the empty set containing_indices must report no index (there is no triangle an index could refer to)",
     "ArrayTriangles.for_limits_and_scale is called with y_max > y_min and x_max > x_min (a zero extent yields an "
     "empty set whose `.triangles` cannot be evaluated); nothing is claimed about how well the limits are covered",
     "column 0 of a vertex is what the shapes call x (the vertex-array lattice stores (y, x) pairs; the check is "
@@ -238,23 +253,59 @@ def check_nb(ctx, name, T, nb_obj, S):
     return G
 
 
-def check_sel(ctx, name, obj, T, idx):
-    key = "for_indexes/%s" % name
-    sel = obj.for_indexes(np.array(idx, dtype=int))
+FORMS = ["int64", "neg", "mixed-neg", "list", "list-neg", "bool", "bool-list", "repeat", "int32", "uint8"]
+
+
+def _index_form(form, idx, n):
+    """The index argument in the requested form plus the numpy index that defines the reference
+    `triangles[index]` (idx is a list of in-range non-negative ints)."""
+    idx = [int(j) for j in idx]
+    if form in (None, "int64", "containing-result"):
+        obj = np.array(idx, dtype=np.int64)
+    elif form == "neg":
+        obj = np.array([j - n for j in idx], dtype=np.int64)
+    elif form == "mixed-neg":
+        obj = np.array([j - n if i % 2 == 0 else j for i, j in enumerate(idx)], dtype=np.int64)
+    elif form == "list":
+        obj = list(idx)
+    elif form == "list-neg":
+        obj = [j - n for j in idx]
+    elif form in ("bool", "bool-list"):
+        m = np.zeros(n, dtype=bool)
+        m[np.array(idx, dtype=int)] = True
+        obj = m if form == "bool" else m.tolist()
+    elif form == "repeat":
+        obj = np.array(idx + idx[:1] + idx[-1:] + idx[:1], dtype=np.int64)
+    elif form == "int32":
+        obj = np.array(idx, dtype=np.int32)
+    elif form == "uint8":
+        obj = np.array(idx, dtype=np.uint8 if n <= 255 else np.uint16)
+    else:
+        raise AssertionError("harness: unknown index form %r" % form)
+    ref = np.asarray(obj)
+    if ref.size == 0 and ref.dtype != bool:
+        ref = np.array([], dtype=np.int64)
+    return obj, ref
+
+
+def check_sel(ctx, name, obj, T, index, ref=None, form="int64"):
+    """for_indexes(index) must be, position by position, triangles[index] under numpy indexing semantics."""
+    if ref is None:
+        index, ref = _index_form(form, index, len(T))
+    key = "for_indexes/%s/%s" % (name, form)
+    sel = obj.for_indexes(index)
     G = _tri(ctx, sel, key)
-    want = T[np.array(idx, dtype=int)]
+    want = T[ref]
     tolv = _tol(T, 0.0) if len(T) else 0.0  # selection must not move anything: rounding slack only
-    ctx.check(len(G) == len(idx) and len(sel) == len(idx), key + "/count",
-              "selected %d indexes, got %d triangles (len() %s)" % (len(idx), len(G), len(sel)))
-    m = R.match(want, G, tolv)
-    miss = np.nonzero(m < 0)[0]
-    ctx.check(len(miss) == 0, key + "/missing",
-              lambda: "selected triangle index %d %s not in the result %s" % (
-                  idx[miss[0]], want[miss[0]].tolist(), G.tolist()[:6]))
-    m = R.match(G, want, tolv)
-    extra = np.nonzero(m < 0)[0]
-    ctx.check(len(extra) == 0, key + "/extra",
-              lambda: "result triangle %s was not selected (selected %s)" % (G[extra[0]].tolist(), want.tolist()[:6]))
+    ctx.check(len(G) == len(want) and len(sel) == len(want), key + "/count",
+              lambda: "index %r selects %d triangles, got %d (len() %s)" % (index, len(want), len(G), len(sel)))
+    if len(G) == len(want) and len(want):
+        d = np.abs(want[:, :, None, :] - G[:, None, :, :]).max(axis=-1)
+        h = np.maximum(d.min(axis=2).max(axis=1), d.min(axis=1).max(axis=1))
+        j = int(np.argmax(h))
+        ctx.check(bool(h[j] <= tolv), key + "/geometry",
+                  lambda: "index %r: position %d should be triangle %s, got %s" % (
+                      index, j, want[j].tolist(), G[j].tolist()))
     return sel, G
 
 
@@ -462,10 +513,31 @@ def _ratio_band(desc, p, S):
     return ">=1.0"
 
 
+def _far_shape(kind, p, S):
+    """A shape of about one side in size whose reference point is p (used far outside the mesh and on the
+    empty set)."""
+    _, _, sh = _classes()
+    px, py = p
+    if kind == "point":
+        return sh.Point(px, py)
+    if kind == "circle":
+        return sh.Circle(px, py, 0.5 * S)
+    if kind == "square":
+        return sh.Square(top=py - 0.5 * S, bottom=py + 0.25 * S, left=px - 0.5 * S, right=px + S)
+    if kind == "triangle":
+        return sh.Triangle((px - S, py - S), (px + 2 * S, py), (px - S, py + S))
+    return sh.Polygon([(px - S, py - S), (px + S, py - S), (px + S, py + S), (px - S, py + S)])
+
+
 def check_contain(ctx, rep, spec, S):
     T = rep.T
     n = len(T)
     if n == 0:
+        # nothing can contain anything: the call must work and report no triangle
+        res = np.asarray(rep.obj.containing_indices(_far_shape(spec["kind"], (0.25 * S, -0.5 * S), S)))
+        ctx.check(res.size == 0, "containing/%s/%s/empty-set" % (rep.name, spec["kind"]),
+                  "containing_indices on the empty set returned %r" % (res.tolist()[:5],))
+        ctx.label("contain-on-empty-set")
         return
     k = spec["k"] % n
     p = _ref_point(spec, T[k])
@@ -568,7 +640,26 @@ def _zoom_step(ctx, rep, p, S):
             idx.append(j)
     if not idx:   # tie band (or a reported failure): carry on with the oracle's best triangle
         idx = [int(np.argmax(mb))]
-    sel, G = check_sel(ctx, rep.name, rep.obj, T, idx)
+    sel, G = check_sel(ctx, rep.name, rep.obj, T, idx, form="containing-result")
+    rep.obj, rep.T = sel, G
+
+
+def _chain_step(ctx, rep, op, S, p):
+    """containing_indices(shape far outside the mesh) -> for_indexes(result): the result (normally no index at
+    all) is fed onward unchanged."""
+    T = rep.T
+    res = np.asarray(rep.obj.containing_indices(_far_shape(op["kind"], p, S)))
+    if len(T):
+        mb = R.min_bary(T, np.array([p]))[:, 0]
+        want = set(int(j) for j in np.nonzero(mb >= 0.01)[0])
+        miss = sorted(want - set(int(v) for v in res.ravel().tolist()))
+        ctx.check(not miss, "containing/%s/%s/far" % (rep.name, op["kind"]),
+                  lambda: "point %r lies in triangle %d but containing_indices returned %s" % (p, miss[0], res.tolist()[:10]))
+    else:
+        ctx.check(res.size == 0, "containing/%s/%s/empty-set" % (rep.name, op["kind"]),
+                  "containing_indices on the empty set returned %r" % (res.tolist()[:5],))
+    ctx.label("chain:far-%s" % op["kind"], "chain:result-%s" % ("empty" if res.size == 0 else "nonempty"))
+    sel, G = check_sel(ctx, rep.name, rep.obj, T, res, ref=res, form="containing-result")
     rep.obj, rep.T = sel, G
 
 
@@ -585,6 +676,8 @@ def battery(ctx, reps, S, ops, shapes, zoom=None):
     mult = (R.min_bary(T0, T0.mean(axis=1)) > BARY_IN + 4 * _rel(T0, S)).sum(axis=1)
     if len(T0) and mult.max() > 1:
         ctx.label("input:duplicate-triangles")
+    centre = T0.reshape(-1, 2).mean(axis=0) if len(T0) else np.zeros(2)
+    S0 = S
     zp = None
     if zoom is not None:
         zp = _ref_point({"at": "interior", "place": zoom["place"]}, T0[zoom["k"] % len(T0)])
@@ -604,7 +697,15 @@ def battery(ctx, reps, S, ops, shapes, zoom=None):
             break
         n = len(reps[0].T)
         kind = op["op"]
-        if kind == "up":
+        if n == 0:
+            ctx.label("class:op-on-empty-set", "on-empty:%s" % kind)
+        elif n == 1:
+            ctx.label("class:op-on-single-element-set", "on-single:%s" % kind)
+        if kind == "chain":
+            far = (float(centre[0] + op["far"][0] * S0), float(centre[1] + op["far"][1] * S0))
+            for r in reps:
+                _chain_step(ctx, r, op, S, far)
+        elif kind == "up":
             if max(len(r.T) for r in reps) > MAX_UP:
                 ctx.label("skipped:up-too-large")
                 continue
@@ -624,6 +725,8 @@ def battery(ctx, reps, S, ops, shapes, zoom=None):
                 r.obj = nb
             ctx.label("nb-after-up" if ups else "nb-at-level0")
         elif kind == "zoom":
+            if n == 0:
+                continue
             for r in reps:
                 _zoom_step(ctx, r, zp, S)
             zooms += 1
@@ -636,7 +739,8 @@ def battery(ctx, reps, S, ops, shapes, zoom=None):
             if not together:
                 continue
             idx = _sel_indexes(op, n)
-            ctx.label("sel:empty" if not idx else "sel:all" if len(idx) == n else "sel:proper-subset")
+            form = op.get("form", "int64")
+            ctx.label("sel:empty" if not idx else "sel:all" if len(idx) == n else "sel:proper-subset", "form:%s" % form)
             want = reps[0].T[np.array(idx, dtype=int)]
             for ri, r in enumerate(reps):
                 if ri == 0:
@@ -646,13 +750,11 @@ def battery(ctx, reps, S, ops, shapes, zoom=None):
                     if (m < 0).any():
                         ctx.fail_stop("xrep/select-map", "cannot find the selected triangles in %s" % r.name)
                     ridx = [int(v) for v in m]
-                sel, G = check_sel(ctx, r.name, r.obj, r.T, ridx)
+                sel, G = check_sel(ctx, r.name, r.obj, r.T, ridx, form=form)
                 r.obj, r.T = sel, G
         else:
             raise AssertionError("unknown op %r" % kind)
         _after(ctx, reps, S, kind, shapes, together)
-        if len(reps[0].T) == 0:
-            break
     ctx.label("ups:%s" % (ups if ups <= 3 else "4-29" if ups < 30 else "30+"))
     if zooms:
         ctx.label("final-side:%s" % ("<=1e-11" if S <= 1e-11 else "<=1e-9" if S <= 1e-9 else "<=1e-6" if S <= 1e-6
@@ -765,7 +867,7 @@ def shape_specs(draw):
 
 
 @st.composite
-def op_lists(draw, max_ops=4, max_up=3):
+def op_lists(draw, max_ops=4, max_up=3, styles=("mixed", "ups-first", "empty-set", "single-element")):
     sel_nonempty = st.one_of(
         st.builds(lambda idx: {"op": "sel", "idx": idx}, st.lists(st.integers(0, 10 ** 6), min_size=1, max_size=8)),
         st.builds(lambda idx: {"op": "sel", "idx": idx}, st.lists(st.integers(0, 10 ** 6), min_size=1, max_size=3)),
@@ -773,12 +875,29 @@ def op_lists(draw, max_ops=4, max_up=3):
                   st.integers(0, 5), st.integers(0, 2)),
         st.just({"op": "sel", "mode": "stride", "start": 0, "step": 0}),
     )
+    forms = st.sampled_from(FORMS)
     sel = st.integers(0, 9).flatmap(lambda t: st.just({"op": "sel", "idx": []}) if t >= 8 else sel_nonempty)
-    style = draw(st.sampled_from(["mixed", "ups-first"]))
+    sel = st.builds(lambda o, f: dict(o, form=f), sel, forms)
+    empty_sel = st.builds(lambda f: {"op": "sel", "idx": [], "form": f}, forms)
+    single_sel = st.builds(lambda i, f: {"op": "sel", "idx": [i], "form": f}, st.integers(0, 10 ** 6), forms)
+    chain = st.builds(lambda k, a, d: {"op": "chain", "kind": k,
+                                       "far": [d * math.cos(a), d * math.sin(a)]},
+                      st.sampled_from(["point", "circle", "square", "triangle", "polygon"]),
+                      st.floats(0.0, 6.283), st.sampled_from([200.0, 500.0, 2000.0]))
+    anyop = st.one_of(st.just({"op": "up"}), st.just({"op": "nb"}), st.just({"op": "nb"}), sel, sel)
+    style = styles[draw(st.integers(0, 10 ** 6)) % len(styles)]   # (sampled_from is strongly biased to the front)
     ops = []
     if style == "ups-first":
         ops = [{"op": "up"}] * draw(st.integers(1, max_up))
-    rest = draw(st.lists(st.one_of(st.just({"op": "up"}), st.just({"op": "nb"}), st.just({"op": "nb"}), sel, sel),
+    elif style == "empty-set":     # empty the set (empty index in some form, or a shape far outside), then carry on
+        pre = [{"op": "up"}] if draw(st.booleans()) else []
+        ops = pre + [draw(st.one_of(empty_sel, chain))] + draw(
+            st.lists(st.one_of(st.just({"op": "up"}), st.just({"op": "nb"}), empty_sel, chain), min_size=1, max_size=3))
+        return [dict(o) for o in ops]
+    elif style == "single-element":
+        ops = [draw(single_sel)] + draw(st.lists(anyop, min_size=1, max_size=3))
+        return [dict(o) for o in ops]
+    rest = draw(st.lists(anyop,
                          min_size=0 if ops else 1, max_size=max(1, max_ops - len(ops))))
     out, ups = [], 0
     for o in ops + rest:
@@ -798,6 +917,8 @@ def coord_lists(draw, span=30, families=("cluster", "block", "row", "hexagon", "
         cells = [[dx, dy] for dx in range(-3, 4) for dy in range(-2, 3)]
         pick = draw(st.lists(st.sampled_from(cells), min_size=1, max_size=10, unique_by=tuple))
         coords = [[bx + dx, by + dy] for dx, dy in pick]
+    elif fam == "single":
+        coords = [[bx, by]]
     elif fam == "block":
         w, h = draw(st.integers(2, 5)), draw(st.integers(1, 3))
         coords = [[bx + i, by + j] for j in range(h) for i in range(w)]
@@ -951,6 +1072,14 @@ ENUM_OPS = [
     [{"op": "nb"}, {"op": "up"}, {"op": "sel", "mode": "stride", "start": 1, "step": 1}, {"op": "up"}],
     [{"op": "up"}, {"op": "nb"}, {"op": "sel", "idx": [0, 5, 2]}, {"op": "nb"}],
 ]
+ENUM_OPS_EDGE = [   # empty and single-element sets, index forms (unit geometry only)
+    [{"op": "sel", "idx": [1, 0], "form": "neg"}, {"op": "chain", "kind": "square", "far": [300.0, -40.0]}, {"op": "nb"},
+     {"op": "up"}, {"op": "sel", "idx": [], "form": "bool"}, {"op": "chain", "kind": "polygon", "far": [0.0, 900.0]},
+     {"op": "up"}, {"op": "nb"}],
+    [{"op": "sel", "idx": [2], "form": "list-neg"}, {"op": "nb"}, {"op": "sel", "idx": [0, 3, 2], "form": "repeat"},
+     {"op": "sel", "idx": [1, 2], "form": "bool-list"}, {"op": "up"}, {"op": "sel", "idx": [6, 1, 3], "form": "uint8"},
+     {"op": "sel", "idx": [], "form": "list"}, {"op": "nb"}, {"op": "up"}],
+]
 
 
 def cases_enum_small(tier):
@@ -971,7 +1100,7 @@ def cases_enum_small(tier):
             if tier == "quick" and gi == 1 and len(coords) == 1 and (abs(coords[0][0]) == 2 or abs(coords[0][1]) == 2):
                 continue   # quick: the tiny-side geometry runs on the inner singles and all the subsets only
             for flipped in (False, True):
-                for oi, ops in enumerate(ENUM_OPS):
+                for oi, ops in enumerate(ENUM_OPS + (ENUM_OPS_EDGE if gi == 0 else [])):
                     yield {"family": "enum", "coords": coords, "regime": "unit" if gi == 0 else "scaled",
                            "side": side, "xo": xo, "yo": yo, "flipped": flipped, "ops": ops, "shapes": ENUM_SHAPES}
 
@@ -1042,7 +1171,7 @@ def body_shape_grid(case, ctx):
 
 SUBCHECKS = [
     SubCheck("shape_grid", body_shape_grid, cases=cases_shape_grid, shards={"quick": 8, "thorough": 16}),
-    SubCheck("enum_small", body_coords_ops, cases=cases_enum_small, shards={"quick": 6, "thorough": 16}),
+    SubCheck("enum_small", body_coords_ops, cases=cases_enum_small, shards={"quick": 12, "thorough": 16}),
     SubCheck("coords_ops", body_coords_ops, strategy=coords_ops_cases(), examples={"quick": 640, "thorough": 16000},
              shards={"quick": 8, "thorough": 32}),
     SubCheck("limits_coord", body_limits_coord, strategy=limits_cases(0.0), examples={"quick": 120, "thorough": 1600},
